@@ -1019,6 +1019,21 @@ func checkWriterIntakeClosedWorld(c *Ctx, rule string) {
 			c.ok(rule, f.ID, p.Pos(f.Decl.Pos()), f.ID+" "+touches+": "+why)
 			continue
 		}
+		// an unexported helper called only by the reviewed drivers is a piece of them (the hand-off, counter and window
+		// rules follow such helpers)
+		if !ast.IsExported(f.Decl.Name.Name) {
+			cs := callersOf(p, f.ID)
+			only := len(cs) > 0
+			for _, s := range cs {
+				if _, ok := reviewed[s.Fn.ID]; !ok {
+					only = false
+				}
+			}
+			if only {
+				c.ok(rule, f.ID, p.Pos(f.Decl.Pos()), f.ID+" "+touches+": helper called only by the reviewed drivers")
+				continue
+			}
+		}
 		c.add(rule, f.ID, p.Pos(f.Decl.Pos()), OK, f.ID+" "+touches+": NOT reviewed")
 		c.softUndecided("%s: %s %s but is not one of the reviewed drivers of the writer's leaf protocol (Write, flush, Flush): a second intake path (e.g. io.ReaderFrom, which io.Copy prefers over Write) chunks and hashes on its own and is not covered by the hand-off, counter and window rules", rule, f.ID, touches)
 	}
